@@ -430,6 +430,7 @@ def tracker_of(name):
         "NodePopulation": lambda: T.NodePopulation(),
         "NodePopulationSubset": lambda: T.NodePopulationSubset([0]),
         "GroupedNodePopulation": lambda: T.GroupedNodePopulation([[0], [1]]),
+        "GroupedNodePopulation3": lambda: T.GroupedNodePopulation([[0, 2], [1]]),
         "GroupedNodePopulation1": lambda: T.GroupedNodePopulation([[0]]),
         "NodeClassMatrix": lambda: T.NodeClassMatrix(),
         "NaiveBlocking": lambda: T.NaiveBlocking(),
@@ -460,3 +461,132 @@ def MC(base="Q1", n=2, method="Complete", **params):
     cfg.mode = ("customers", n, method)
     cfg.flags["max_customers"] = (n, method)
     return cfg
+
+
+# ---- GEN: composable two-node configuration for feature-combination sweeps ---------------------------------
+@config
+def GEN(topo="single", c1=1, c2=1, sched=None, cap1=None, cap2=None, syscap=None, classes=1, prio=False, pre=False,
+        discipline=None, reneging=None, baulk=None, batch=None, first=None, burst=None, ccafter=False, ccwait=False,
+        ps=False, a2=False, p=1.0, jsq=False, offset=0.0):
+    """sched: None | ["sc", pre] | ["sc2", pre] (two servers in the first shift) | ["sl", capacitated, pre]
+       topo: single | tandem (1->2 w.p. p) | loop (1->2->1 w.p. p) | self (1->1 w.p. p) | fork (1 -> JSQ{2,3})"""
+    nn = {"single": 1, "self": 1, "tandem": 2, "loop": 2, "fork": 3}[topo]
+    names = ["A", "B"][:classes] if classes > 1 else ["Customer"]
+    flags = {}
+    # servers
+    ns1 = INF if c1 == "inf" else c1
+    tt = {}
+    if sched is not None:
+        kind = sched[0]
+        if kind in ("sc", "sc2"):
+            values = [1, 0, 2] if kind == "sc" else [2, 1, 2]
+            bounds = [2, 3, 5] if kind == "sc" else [1, 2, 4]
+            ns1 = ciw.Schedule(numbers_of_servers=values, shift_end_dates=bounds, preemption=sched[1], offset=offset)
+            tt[1] = dict(kind="schedule", bounds=bounds, values=values, offset=offset, preemption=sched[1])
+            if sched[1] is not False:
+                flags["preemptive_schedule"] = True
+        else:
+            ns1 = ciw.Slotted(slots=list(SL_SLOTS), slot_sizes=list(SL_SIZES), capacitated=sched[1], preemption=sched[2], offset=offset)
+            tt[1] = dict(kind="slotted", slots=list(SL_SLOTS), sizes=list(SL_SIZES), offset=offset, capacitated=sched[1], preemption=sched[2])
+    if tt:
+        flags["timetable"] = tt
+    servers = [ns1] + [c2] * (nn - 1)
+    kw = {}
+    caps = [cap(cap1) if cap1 is not None else INF] + [cap(cap2) if cap2 is not None else INF] * (nn - 1)
+    if cap1 is not None or cap2 is not None:
+        kw["queue_capacities"] = caps
+    if syscap is not None:
+        kw["system_capacity"] = syscap
+    # routing
+    if topo == "single":
+        M = [[0.0]]
+    elif topo == "self":
+        M = [[p]]
+    elif topo == "tandem":
+        M = [[0.0, p], [0.0, 0.0]]
+    elif topo == "loop":
+        M = [[0.0, p], [p, 0.0]]
+    else:
+        M = None
+    if topo == "fork":
+        def mk():
+            return R.NetworkRouting(routers=[R.JoinShortestQueue(destinations=[2, 3], tie_break="order"), R.Leave(), R.Leave()])
+        spec = ("nodes", [("jsq", [2, 3], "order"), ("leave",), ("leave",)])
+        rjock = None
+    else:
+        spec = ("nodes", [("prob", list(range(1, nn + 1)), row) for row in M])
+    if reneging == "jockey" and nn >= 2:
+        # jockeying needs router objects
+        def mk():  # noqa: F811
+            rs = [Jockey(2)] + [R.Leave()] * (nn - 1)
+            return R.NetworkRouting(routers=rs)
+        spec = ("nodes", [("leave",)] * nn)
+        routing = {k: mk() for k in names}
+    elif topo == "fork":
+        routing = {k: mk() for k in names}
+    else:
+        routing = {k: [list(r) for r in M] for k in names}
+    flags["routing"] = {k: spec for k in names}
+    # classes
+    lowest = names[-1]
+    ad, sd, bd, rd = {}, {}, {}, {}
+    for k in names:
+        ad[k] = [arr("a" + k, True, burst)] + [arr("a2" + k, True, burst) if (a2 and j == 1) else None for j in range(1, nn)]
+        sd[k] = [D("s%d%s" % (j + 1, k)) for j in range(nn)]
+        b1 = batches(first if k == lowest else None, batch if k == lowest else None)
+        bd[k] = [b1] + [ciw.dists.Deterministic(1)] * (nn - 1)
+        if reneging:
+            rd[k] = [D("p" + k)] + [None] * (nn - 1)
+    if reneging:
+        kw["reneging_time_distributions"] = rd
+        if reneging == "jockey" and (cap2 is not None):
+            flags["overcap_ok"] = True
+    if classes > 1:
+        pc = {k: (i if prio else 0) for i, k in enumerate(names)}
+        kw["priority_classes"] = (pc, [pre] + [False] * (nn - 1))
+    if pre == "reroute" and (cap2 is not None or cap1 is not None):
+        flags["overcap_ok"] = True
+    if sched is not None and sched[0] in ("sc", "sc2") and sched[1] == "reroute":
+        flags["overcap_ok"] = True
+    if baulk:
+        kw["baulking_functions"] = {k: [BaulkFn(baulk)] + [None] * (nn - 1) for k in names}
+    if ccafter and classes > 1:
+        Mcc = {"A": {"A": 0.5, "B": 0.5}, "B": {"A": 0.0, "B": 1.0}}
+        kw["class_change_matrices"] = [Mcc] * nn
+        flags["class_change"] = [Mcc] * nn
+    if ccwait and classes > 1:
+        kw["class_change_time_distributions"] = {"A": {"B": D("cAB")}, "B": {"A": D("cBA")}}
+        flags["priority_changes_while_waiting"] = prio
+        flags["class_change_waiting"] = True
+    if ps:
+        kw["ps_thresholds"] = [1] * nn
+    net = ciw.create_network(arrival_distributions=ad, service_distributions=sd, number_of_servers=servers, routing=routing,
+                             batching_distributions=bd, service_disciplines=[disc(discipline)] * nn, **kw)
+    node_class = [MonPSNode] + [MonNode] * (nn - 1) if ps else MonNode
+    return Cfg(net, flags, node_class=node_class)
+
+
+@config
+def FK(c1=3, firstA=3, firstB=2, burst=1, c2=1, c3=1, cap2=0, cap3=0, cap1=None):
+    """fork by class: class A goes 1 -> 2, class B goes 1 -> 3 (deterministic routes keep the path count low);
+    several customers of a multi-server node 1 get blocked towards two different nodes"""
+    MA = [[0.0, 1.0, 0.0], [0.0, 0.0, 0.0], [0.0, 0.0, 0.0]]
+    MB = [[0.0, 0.0, 1.0], [0.0, 0.0, 0.0], [0.0, 0.0, 0.0]]
+    caps = [INF if cap1 is None else cap1, cap2, cap3]
+    net = ciw.create_network(arrival_distributions={"A": [arr("aA", True, burst), None, None], "B": [arr("aB", True, burst), None, None]},
+                             service_distributions={"A": [D("sA1"), D("sA2"), D("sA3")], "B": [D("sB1"), D("sB2"), D("sB3")]},
+                             number_of_servers=[c1, c2, c3], queue_capacities=caps, routing={"A": MA, "B": MB},
+                             batching_distributions={"A": [batches(firstA), batches(None), batches(None)], "B": [batches(firstB), batches(None), batches(None)]})
+    sp = lambda M: ("nodes", [("prob", [1, 2, 3], row) for row in M])
+    return Cfg(net, {"routing": {"A": sp(MA), "B": sp(MB)}})
+
+
+@config
+def DL3(c=(2, 1, 1), first=(2, 1, 1), burst=1):
+    """three nodes without waiting room: 1 <-> 2 cycle, node 3 feeds itself; a harmless blocking cycle can coexist
+    with a genuine deadlock at node 3"""
+    M = [[0.0, 1.0, 0.0], [1.0, 0.0, 0.0], [0.0, 0.0, 1.0]]
+    net = ciw.create_network(arrival_distributions=[arr("a1", True, burst), arr("a2", True, burst), arr("a3", True, burst)],
+                             service_distributions=[D("s1"), D("s2"), D("s3")], number_of_servers=list(c), queue_capacities=[0, 0, 0],
+                             routing=M, batching_distributions=[batches(first[0]), batches(first[1]), batches(first[2])])
+    return Cfg(net, {"routing": {"Customer": ("nodes", [("prob", [1, 2, 3], row) for row in M])}})
